@@ -4,6 +4,8 @@ import Proofs.F32Dot
 import Proofs.F64Dot
 import Proofs.F32Div
 import Proofs.F64Div
+import Proofs.F32Ident
+import Proofs.F64Ident
 /-! C19 — 3x3 algebra: the exact clauses, generic in the element values (hence for every f32/f64 bit pattern, both FMA
 modes): transpose is an exact involution, `mul_vec` and `mul_arr` are the same expression, `scalar_div` and
 `component_mul` are element-wise, rows of `mul_mat` are `mul_vec` of the transposed operand. The accuracy clauses
@@ -151,5 +153,135 @@ example : OkM32 Mat32.M3.identity ∧ Ok32 ⟨0x3f800000, 0x3f800000, 0x3f800000
     simp only [Mat32.M3.identity, a0, a1, a2, a3, a4, a5, a6, a7, a8] <;> first | exact one | exact zero
 
 end accuracy
+
+/-! ### multiplying by `identity()` changes nothing (exact real values; 32) -/
+section identity32
+open F32
+
+theorem okb_32 {t : Nat} (h : F32.Bnd t 2) : |F32.toReal t| ≤ 100000 := le_trans h.2 (by norm_num)
+
+/-- `identity() * v = v` -/
+theorem identity_mulVec32 (fm : Bool) (v : Mat32.V3) (hv : F32.V3.Ok v) :
+    F32.toReal (Mat32.M3.mulArr fm Mat32.M3.identity v).x = F32.toReal v.x ∧ F32.toReal (Mat32.M3.mulArr fm Mat32.M3.identity v).y = F32.toReal v.y ∧
+    F32.toReal (Mat32.M3.mulArr fm Mat32.M3.identity v).z = F32.toReal v.z := by
+  obtain ⟨i0, i1, i2, i3, i4, i5, i6, i7, i8⟩ := F32.id_lits
+  have b1 : ∀ a, F32.Or1 a → |F32.toReal a| ≤ 100000 := fun a h => by rw [h.2]; norm_num
+  have b0 : ∀ a, F32.Zr a → |F32.toReal a| ≤ 100000 := fun a h => by rw [h.2]; norm_num
+  refine ⟨?_, ?_, ?_⟩
+  · exact F32.dot_pick0 fm (Mat32.idLit 0) (Mat32.idLit 1) (Mat32.idLit 2) v.x v.y v.z v.x i0.1 i1.1 i2.1 hv.1.1 hv.2.1.1 hv.2.2.1 hv.1.1
+      (by intro t ht; simp only [List.mem_cons, List.mem_nil_iff, or_false] at ht; rcases ht with h | h | h | h | h | h | h <;> subst h <;> first | exact b1 _ i0 | exact b0 _ i1 | exact b0 _ i2 | exact okb_32 hv.1 | exact okb_32 hv.2.1 | exact okb_32 hv.2.2)
+      (by rw [i0.2, one_mul]) (by rw [i1.2, zero_mul]) (by rw [i2.2, zero_mul])
+  · exact F32.dot_pick1 fm (Mat32.idLit 3) (Mat32.idLit 4) (Mat32.idLit 5) v.x v.y v.z v.y i3.1 i4.1 i5.1 hv.1.1 hv.2.1.1 hv.2.2.1 hv.2.1.1
+      (by intro t ht; simp only [List.mem_cons, List.mem_nil_iff, or_false] at ht; rcases ht with h | h | h | h | h | h | h <;> subst h <;> first | exact b0 _ i3 | exact b1 _ i4 | exact b0 _ i5 | exact okb_32 hv.1 | exact okb_32 hv.2.1 | exact okb_32 hv.2.2)
+      (by rw [i3.2, zero_mul]) (by rw [i4.2, one_mul]) (by rw [i5.2, zero_mul])
+  · exact F32.dot_pick2 fm (Mat32.idLit 6) (Mat32.idLit 7) (Mat32.idLit 8) v.x v.y v.z v.z i6.1 i7.1 i8.1 hv.1.1 hv.2.1.1 hv.2.2.1 hv.2.2.1
+      (by intro t ht; simp only [List.mem_cons, List.mem_nil_iff, or_false] at ht; rcases ht with h | h | h | h | h | h | h <;> subst h <;> first | exact b0 _ i6 | exact b0 _ i7 | exact b1 _ i8 | exact okb_32 hv.1 | exact okb_32 hv.2.1 | exact okb_32 hv.2.2)
+      (by rw [i6.2, zero_mul]) (by rw [i7.2, zero_mul]) (by rw [i8.2, one_mul])
+
+/-- a row of `A * identity()` is the row of `A` -/
+theorem row_mul_identity32 (fm : Bool) (r : Mat32.V3) (hr : F32.V3.Ok r) :
+    F32.toReal (Mat32.fmadd fm r.x (Mat32.idLit 0) (Mat32.fmadd fm r.y (Mat32.idLit 3) (F32.mul r.z (Mat32.idLit 6)))) = F32.toReal r.x ∧
+    F32.toReal (Mat32.fmadd fm r.x (Mat32.idLit 1) (Mat32.fmadd fm r.y (Mat32.idLit 4) (F32.mul r.z (Mat32.idLit 7)))) = F32.toReal r.y ∧
+    F32.toReal (Mat32.fmadd fm r.x (Mat32.idLit 2) (Mat32.fmadd fm r.y (Mat32.idLit 5) (F32.mul r.z (Mat32.idLit 8)))) = F32.toReal r.z := by
+  obtain ⟨i0, i1, i2, i3, i4, i5, i6, i7, i8⟩ := F32.id_lits
+  have b1 : ∀ a, F32.Or1 a → |F32.toReal a| ≤ 100000 := fun a h => by rw [h.2]; norm_num
+  have b0 : ∀ a, F32.Zr a → |F32.toReal a| ≤ 100000 := fun a h => by rw [h.2]; norm_num
+  refine ⟨?_, ?_, ?_⟩
+  · exact F32.dot_pick0 fm r.x r.y r.z (Mat32.idLit 0) (Mat32.idLit 3) (Mat32.idLit 6) r.x hr.1.1 hr.2.1.1 hr.2.2.1 i0.1 i3.1 i6.1 hr.1.1
+      (by intro t ht; simp only [List.mem_cons, List.mem_nil_iff, or_false] at ht; rcases ht with h | h | h | h | h | h | h <;> subst h <;> first | exact b1 _ i0 | exact b0 _ i3 | exact b0 _ i6 | exact okb_32 hr.1 | exact okb_32 hr.2.1 | exact okb_32 hr.2.2)
+      (by rw [i0.2, mul_one]) (by rw [i3.2, mul_zero]) (by rw [i6.2, mul_zero])
+  · exact F32.dot_pick1 fm r.x r.y r.z (Mat32.idLit 1) (Mat32.idLit 4) (Mat32.idLit 7) r.y hr.1.1 hr.2.1.1 hr.2.2.1 i1.1 i4.1 i7.1 hr.2.1.1
+      (by intro t ht; simp only [List.mem_cons, List.mem_nil_iff, or_false] at ht; rcases ht with h | h | h | h | h | h | h <;> subst h <;> first | exact b0 _ i1 | exact b1 _ i4 | exact b0 _ i7 | exact okb_32 hr.1 | exact okb_32 hr.2.1 | exact okb_32 hr.2.2)
+      (by rw [i1.2, mul_zero]) (by rw [i4.2, mul_one]) (by rw [i7.2, mul_zero])
+  · exact F32.dot_pick2 fm r.x r.y r.z (Mat32.idLit 2) (Mat32.idLit 5) (Mat32.idLit 8) r.z hr.1.1 hr.2.1.1 hr.2.2.1 i2.1 i5.1 i8.1 hr.2.2.1
+      (by intro t ht; simp only [List.mem_cons, List.mem_nil_iff, or_false] at ht; rcases ht with h | h | h | h | h | h | h <;> subst h <;> first | exact b0 _ i2 | exact b0 _ i5 | exact b1 _ i8 | exact okb_32 hr.1 | exact okb_32 hr.2.1 | exact okb_32 hr.2.2)
+      (by rw [i2.2, mul_zero]) (by rw [i5.2, mul_zero]) (by rw [i8.2, mul_one])
+
+/-- `A * identity() = A`, entry by entry -/
+theorem mulMat_identity32 (fm : Bool) (a : Mat32.M3) (ha : F32.M3.Ok a) :
+    let p := Mat32.M3.mulMat fm a Mat32.M3.identity
+    (F32.toReal p.r1.x = F32.toReal a.r1.x ∧ F32.toReal p.r1.y = F32.toReal a.r1.y ∧ F32.toReal p.r1.z = F32.toReal a.r1.z) ∧
+    (F32.toReal p.r2.x = F32.toReal a.r2.x ∧ F32.toReal p.r2.y = F32.toReal a.r2.y ∧ F32.toReal p.r2.z = F32.toReal a.r2.z) ∧
+    (F32.toReal p.r3.x = F32.toReal a.r3.x ∧ F32.toReal p.r3.y = F32.toReal a.r3.y ∧ F32.toReal p.r3.z = F32.toReal a.r3.z) :=
+  ⟨row_mul_identity32 fm a.r1 ha.1, row_mul_identity32 fm a.r2 ha.2.1, row_mul_identity32 fm a.r3 ha.2.2⟩
+
+/-- `identity() * A = A`, entry by entry (each column of `A` is a vector) -/
+theorem identity_mulMat32 (fm : Bool) (a : Mat32.M3) (ha : F32.M3.Ok a) :
+    let p := Mat32.M3.mulMat fm Mat32.M3.identity a
+    (F32.toReal p.r1.x = F32.toReal a.r1.x ∧ F32.toReal p.r1.y = F32.toReal a.r1.y ∧ F32.toReal p.r1.z = F32.toReal a.r1.z) ∧
+    (F32.toReal p.r2.x = F32.toReal a.r2.x ∧ F32.toReal p.r2.y = F32.toReal a.r2.y ∧ F32.toReal p.r2.z = F32.toReal a.r2.z) ∧
+    (F32.toReal p.r3.x = F32.toReal a.r3.x ∧ F32.toReal p.r3.y = F32.toReal a.r3.y ∧ F32.toReal p.r3.z = F32.toReal a.r3.z) := by
+  intro p
+  have c1 := identity_mulVec32 fm ⟨a.r1.x, a.r2.x, a.r3.x⟩ ⟨ha.1.1, ha.2.1.1, ha.2.2.1⟩
+  have c2 := identity_mulVec32 fm ⟨a.r1.y, a.r2.y, a.r3.y⟩ ⟨ha.1.2.1, ha.2.1.2.1, ha.2.2.2.1⟩
+  have c3 := identity_mulVec32 fm ⟨a.r1.z, a.r2.z, a.r3.z⟩ ⟨ha.1.2.2, ha.2.1.2.2, ha.2.2.2.2⟩
+  exact ⟨⟨c1.1, c2.1, c3.1⟩, ⟨c1.2.1, c2.2.1, c3.2.1⟩, ⟨c1.2.2, c2.2.2, c3.2.2⟩⟩
+
+end identity32
+
+/-! ### multiplying by `identity()` changes nothing (exact real values; 64) -/
+section identity64
+open F64
+
+theorem okb_64 {t : Nat} (h : F64.Bnd t 2) : |F64.toReal t| ≤ 100000 := le_trans h.2 (by norm_num)
+
+/-- `identity() * v = v` -/
+theorem identity_mulVec64 (fm : Bool) (v : Mat64.V3) (hv : F64.V3.Ok v) :
+    F64.toReal (Mat64.M3.mulArr fm Mat64.M3.identity v).x = F64.toReal v.x ∧ F64.toReal (Mat64.M3.mulArr fm Mat64.M3.identity v).y = F64.toReal v.y ∧
+    F64.toReal (Mat64.M3.mulArr fm Mat64.M3.identity v).z = F64.toReal v.z := by
+  obtain ⟨i0, i1, i2, i3, i4, i5, i6, i7, i8⟩ := F64.id_lits
+  have b1 : ∀ a, F64.Or1 a → |F64.toReal a| ≤ 100000 := fun a h => by rw [h.2]; norm_num
+  have b0 : ∀ a, F64.Zr a → |F64.toReal a| ≤ 100000 := fun a h => by rw [h.2]; norm_num
+  refine ⟨?_, ?_, ?_⟩
+  · exact F64.dot_pick0 fm (Mat64.idLit 0) (Mat64.idLit 1) (Mat64.idLit 2) v.x v.y v.z v.x i0.1 i1.1 i2.1 hv.1.1 hv.2.1.1 hv.2.2.1 hv.1.1
+      (by intro t ht; simp only [List.mem_cons, List.mem_nil_iff, or_false] at ht; rcases ht with h | h | h | h | h | h | h <;> subst h <;> first | exact b1 _ i0 | exact b0 _ i1 | exact b0 _ i2 | exact okb_64 hv.1 | exact okb_64 hv.2.1 | exact okb_64 hv.2.2)
+      (by rw [i0.2, one_mul]) (by rw [i1.2, zero_mul]) (by rw [i2.2, zero_mul])
+  · exact F64.dot_pick1 fm (Mat64.idLit 3) (Mat64.idLit 4) (Mat64.idLit 5) v.x v.y v.z v.y i3.1 i4.1 i5.1 hv.1.1 hv.2.1.1 hv.2.2.1 hv.2.1.1
+      (by intro t ht; simp only [List.mem_cons, List.mem_nil_iff, or_false] at ht; rcases ht with h | h | h | h | h | h | h <;> subst h <;> first | exact b0 _ i3 | exact b1 _ i4 | exact b0 _ i5 | exact okb_64 hv.1 | exact okb_64 hv.2.1 | exact okb_64 hv.2.2)
+      (by rw [i3.2, zero_mul]) (by rw [i4.2, one_mul]) (by rw [i5.2, zero_mul])
+  · exact F64.dot_pick2 fm (Mat64.idLit 6) (Mat64.idLit 7) (Mat64.idLit 8) v.x v.y v.z v.z i6.1 i7.1 i8.1 hv.1.1 hv.2.1.1 hv.2.2.1 hv.2.2.1
+      (by intro t ht; simp only [List.mem_cons, List.mem_nil_iff, or_false] at ht; rcases ht with h | h | h | h | h | h | h <;> subst h <;> first | exact b0 _ i6 | exact b0 _ i7 | exact b1 _ i8 | exact okb_64 hv.1 | exact okb_64 hv.2.1 | exact okb_64 hv.2.2)
+      (by rw [i6.2, zero_mul]) (by rw [i7.2, zero_mul]) (by rw [i8.2, one_mul])
+
+/-- a row of `A * identity()` is the row of `A` -/
+theorem row_mul_identity64 (fm : Bool) (r : Mat64.V3) (hr : F64.V3.Ok r) :
+    F64.toReal (Mat64.fmadd fm r.x (Mat64.idLit 0) (Mat64.fmadd fm r.y (Mat64.idLit 3) (F64.mul r.z (Mat64.idLit 6)))) = F64.toReal r.x ∧
+    F64.toReal (Mat64.fmadd fm r.x (Mat64.idLit 1) (Mat64.fmadd fm r.y (Mat64.idLit 4) (F64.mul r.z (Mat64.idLit 7)))) = F64.toReal r.y ∧
+    F64.toReal (Mat64.fmadd fm r.x (Mat64.idLit 2) (Mat64.fmadd fm r.y (Mat64.idLit 5) (F64.mul r.z (Mat64.idLit 8)))) = F64.toReal r.z := by
+  obtain ⟨i0, i1, i2, i3, i4, i5, i6, i7, i8⟩ := F64.id_lits
+  have b1 : ∀ a, F64.Or1 a → |F64.toReal a| ≤ 100000 := fun a h => by rw [h.2]; norm_num
+  have b0 : ∀ a, F64.Zr a → |F64.toReal a| ≤ 100000 := fun a h => by rw [h.2]; norm_num
+  refine ⟨?_, ?_, ?_⟩
+  · exact F64.dot_pick0 fm r.x r.y r.z (Mat64.idLit 0) (Mat64.idLit 3) (Mat64.idLit 6) r.x hr.1.1 hr.2.1.1 hr.2.2.1 i0.1 i3.1 i6.1 hr.1.1
+      (by intro t ht; simp only [List.mem_cons, List.mem_nil_iff, or_false] at ht; rcases ht with h | h | h | h | h | h | h <;> subst h <;> first | exact b1 _ i0 | exact b0 _ i3 | exact b0 _ i6 | exact okb_64 hr.1 | exact okb_64 hr.2.1 | exact okb_64 hr.2.2)
+      (by rw [i0.2, mul_one]) (by rw [i3.2, mul_zero]) (by rw [i6.2, mul_zero])
+  · exact F64.dot_pick1 fm r.x r.y r.z (Mat64.idLit 1) (Mat64.idLit 4) (Mat64.idLit 7) r.y hr.1.1 hr.2.1.1 hr.2.2.1 i1.1 i4.1 i7.1 hr.2.1.1
+      (by intro t ht; simp only [List.mem_cons, List.mem_nil_iff, or_false] at ht; rcases ht with h | h | h | h | h | h | h <;> subst h <;> first | exact b0 _ i1 | exact b1 _ i4 | exact b0 _ i7 | exact okb_64 hr.1 | exact okb_64 hr.2.1 | exact okb_64 hr.2.2)
+      (by rw [i1.2, mul_zero]) (by rw [i4.2, mul_one]) (by rw [i7.2, mul_zero])
+  · exact F64.dot_pick2 fm r.x r.y r.z (Mat64.idLit 2) (Mat64.idLit 5) (Mat64.idLit 8) r.z hr.1.1 hr.2.1.1 hr.2.2.1 i2.1 i5.1 i8.1 hr.2.2.1
+      (by intro t ht; simp only [List.mem_cons, List.mem_nil_iff, or_false] at ht; rcases ht with h | h | h | h | h | h | h <;> subst h <;> first | exact b0 _ i2 | exact b0 _ i5 | exact b1 _ i8 | exact okb_64 hr.1 | exact okb_64 hr.2.1 | exact okb_64 hr.2.2)
+      (by rw [i2.2, mul_zero]) (by rw [i5.2, mul_zero]) (by rw [i8.2, mul_one])
+
+/-- `A * identity() = A`, entry by entry -/
+theorem mulMat_identity64 (fm : Bool) (a : Mat64.M3) (ha : F64.M3.Ok a) :
+    let p := Mat64.M3.mulMat fm a Mat64.M3.identity
+    (F64.toReal p.r1.x = F64.toReal a.r1.x ∧ F64.toReal p.r1.y = F64.toReal a.r1.y ∧ F64.toReal p.r1.z = F64.toReal a.r1.z) ∧
+    (F64.toReal p.r2.x = F64.toReal a.r2.x ∧ F64.toReal p.r2.y = F64.toReal a.r2.y ∧ F64.toReal p.r2.z = F64.toReal a.r2.z) ∧
+    (F64.toReal p.r3.x = F64.toReal a.r3.x ∧ F64.toReal p.r3.y = F64.toReal a.r3.y ∧ F64.toReal p.r3.z = F64.toReal a.r3.z) :=
+  ⟨row_mul_identity64 fm a.r1 ha.1, row_mul_identity64 fm a.r2 ha.2.1, row_mul_identity64 fm a.r3 ha.2.2⟩
+
+/-- `identity() * A = A`, entry by entry (each column of `A` is a vector) -/
+theorem identity_mulMat64 (fm : Bool) (a : Mat64.M3) (ha : F64.M3.Ok a) :
+    let p := Mat64.M3.mulMat fm Mat64.M3.identity a
+    (F64.toReal p.r1.x = F64.toReal a.r1.x ∧ F64.toReal p.r1.y = F64.toReal a.r1.y ∧ F64.toReal p.r1.z = F64.toReal a.r1.z) ∧
+    (F64.toReal p.r2.x = F64.toReal a.r2.x ∧ F64.toReal p.r2.y = F64.toReal a.r2.y ∧ F64.toReal p.r2.z = F64.toReal a.r2.z) ∧
+    (F64.toReal p.r3.x = F64.toReal a.r3.x ∧ F64.toReal p.r3.y = F64.toReal a.r3.y ∧ F64.toReal p.r3.z = F64.toReal a.r3.z) := by
+  intro p
+  have c1 := identity_mulVec64 fm ⟨a.r1.x, a.r2.x, a.r3.x⟩ ⟨ha.1.1, ha.2.1.1, ha.2.2.1⟩
+  have c2 := identity_mulVec64 fm ⟨a.r1.y, a.r2.y, a.r3.y⟩ ⟨ha.1.2.1, ha.2.1.2.1, ha.2.2.2.1⟩
+  have c3 := identity_mulVec64 fm ⟨a.r1.z, a.r2.z, a.r3.z⟩ ⟨ha.1.2.2, ha.2.1.2.2, ha.2.2.2.2⟩
+  exact ⟨⟨c1.1, c2.1, c3.1⟩, ⟨c1.2.1, c2.2.1, c3.2.1⟩, ⟨c1.2.2, c2.2.2, c3.2.2⟩⟩
+
+end identity64
 
 end C19
